@@ -957,7 +957,7 @@ def getter (f : FieldDef) (v : GoVal) : GoVal :=
 
 mutual
 def identFree : CV → Bool
-  | .ident _ _ => false
+  | .ident _ x => x.isNone          -- `true`/`false` and unresolved names carry no Extra: they mean the same in every scope
   | .list xs => identFreeL xs
   | .map kvs => identFreeP kvs
   | _ => true
